@@ -412,6 +412,7 @@ func (fr *Frame) evalBuiltin(st *State, call *ast.CallExpr, name string) []*Term
 			}
 			return []*Term{Acc(v, "len")}
 		case *types.Map:
+			st.Assume(Implies(Eq(Acc(v, "card"), IntLit(0)), Eq(Acc(v, "dom"), ConstArr(v.S.Fields[1].S, False))))
 			return []*Term{Acc(v, "card")}
 		case *types.Basic:
 			l := fr.strLen(v)
@@ -438,6 +439,8 @@ func (fr *Frame) evalBuiltin(st *State, call *ast.CallExpr, name string) []*Term
 			na := Fresh("app", s.S.Fields[0].S)
 			j := Var("j!a", IntSort)
 			st.Assume(Forall([]*Term{j}, Eq(Select(na, j), Ite(Lt(j, Acc(s, "len")), Select(Acc(s, "arr"), j), Select(Acc(o, "arr"), Sub(j, Acc(s, "len"))))), []*Term{Select(na, j)}))
+			j2 := Var("j!b", IntSort)
+			st.Assume(Forall([]*Term{j2}, Implies(Ge(j2, IntLit(0)), Eq(Select(na, Add(j2, Acc(s, "len"))), Select(Acc(o, "arr"), j2))), []*Term{Select(Acc(o, "arr"), j2)}))
 			return []*Term{Ctor(s.S, na, Add(Acc(s, "len"), Acc(o, "len")))}
 		}
 		arr := Acc(s, "arr")
@@ -570,6 +573,12 @@ func (fr *Frame) evalSyncCall(st *State, call *ast.CallExpr, fn *types.Func) []*
 		if li != nil {
 			fr.havocProtected(st, li)
 			fr.assumeLockInv(st, li, loc.Ref)
+			if fr.top.lockedKeys == nil {
+				fr.top.lockedKeys = map[string]bool{}
+			}
+			for k := range fr.e.protectedKeys(li) {
+				fr.top.lockedKeys[k] = true
+			}
 		}
 		st.addSnap(fmt.Sprintf("lock%d", st.nlock))
 	case "Unlock", "RUnlock":
